@@ -184,6 +184,43 @@ def dtype_class(rep, assigned):
 
 
 # ------------------------------------------------------------------------------------------
+# class contract of representations derived from a WRAPPED representation (ProjectiveRepresentation: words map to
+# projective.Transformation; HyperbolicRepresentation: words map to hyperbolic.Isometry), as the unchanged library
+# builds them (read off representation.py / projective.py / hyperbolic.py and observed):
+#   "same"       built through self.__class__: the derived representation has the class of the source, its values the
+#                source's value type (copy constructor, conjugate, dual, astype -- all via _compose -- and subgroup)
+#   "projective" compose and gln_adjoint: via _compose for a ProjectiveRepresentation (so: same class);
+#                HyperbolicRepresentation overrides both to return a ProjectiveRepresentation (the image of a
+#                homomorphism out of O(n,1) is not in O(n,1)): values are Transformation objects, not Isometry
+#   "wrapped"    sln_adjoint: via _compose and not overridden; only "some ProjectiveRepresentation with Transformation
+#                values" is demanded (a HyperbolicRepresentation of adjoint matrices is not a statement about O(n,1))
+#   "plain"      tensor_product, symmetric_square: built as Representation(): plain class, ndarray values
+# ------------------------------------------------------------------------------------------
+CLASS_CONTRACT = {"copy": "same", "conjugate": "same", "dual": "same", "astype-complex": "same", "astype-float": "same",
+                  "subgroup(list)": "same", "subgroup(dict)": "same", "subgroup(list,compute_inverse=False)": "same",
+                  "subgroup(generator_names)": "same", "subgroup(list-of-lists)": "same",
+                  "compose:identity": "projective", "compose:block_include": "projective", "gln_adjoint": "projective",
+                  "sln_adjoint": "wrapped", "tensor_product": "plain", "symmetric_square": "plain"}
+
+
+def contract_classes(kind, src_cls):
+    """(representation class, value class, exact class match?) demanded of a representation derived from a src_cls."""
+    from geometry_tools import projective
+    from geometry_tools.representation import Representation
+    val = {"ProjectiveRepresentation": projective.Transformation}.get(src_cls.__name__)
+    if val is None:
+        from geometry_tools import hyperbolic
+        val = hyperbolic.Isometry
+    if kind == "same":
+        return src_cls, val, True
+    if kind == "projective":
+        return projective.ProjectiveRepresentation, projective.Transformation, True
+    if kind == "wrapped":
+        return projective.ProjectiveRepresentation, projective.Transformation, False
+    return Representation, np.ndarray, True
+
+
+# ------------------------------------------------------------------------------------------
 # the state check
 # ------------------------------------------------------------------------------------------
 def touch(rep, model, cfg, mats):
@@ -413,6 +450,13 @@ def check_state(hist):
     # hom accepts stacks, the oracle functor otherwise)
     derived("compose:identity", lambda: rep.compose(lambda M: M), T, True)
     blk = derived("compose:block_include", lambda: rep.compose(hom.block_include(n + 1)), lambda: R.block_include(T, n + 1))
+    # every padding 0..3 of the block inclusion GL(n) -> GL(n + pad): diag(rho(w), I_pad)
+    short = [w for w in words if len(w) <= 2]
+    sel = np.array([index[w] for w in short])
+    Ts, Tis = T[sel], Tinv[sel]
+    for pad in (0, 2, 3):
+        derived("compose:block_include(+%d)" % pad, lambda pad=pad: rep.compose(hom.block_include(n + pad)),
+                lambda pad=pad: R.block_include(Ts, n + pad), wordsel=short)
     derived("compose:slc_to_slr", lambda: rep.compose(hom.slc_to_slr()), lambda: R.realify(T))
     derived("compose:gln_adjoint", lambda: rep.compose(hom.gln_adjoint(dtype=cdt)), lambda: R.gl_adjoint_stack(T, Tinv))
     if n >= 2:
@@ -444,7 +488,7 @@ def check_state(hist):
         derived("tensor_product(block)", lambda: rep.tensor_product(blk), lambda: R.kron_stack(T, R.block_include(T, n + 1)))
 
     # symmetric square: oracle Sym^2 in the monomial basis, transported by the documented index map
-    def _sym_expected():
+    def _sym_expected(T=T):
         pairs = R.sym_pairs(n)
         pos = [representation.sym_index(i, j, n) for (i, j) in pairs]
         out = []
@@ -549,6 +593,83 @@ def check_state(hist):
             if got is not None:
                 compare(v, "derived/HyperbolicRepresentation/form", words, got.swapaxes(-1, -2) @ J @ got,
                         np.broadcast_to(J, got.shape), None, "isometries(w)^T J isometries(w) vs J", cond=n * nT * (nT + 2 * cT))
+
+    # ---- representations derived from the WRAPPED representations: class contract (CLASS_CONTRACT) and values
+    def wrapped_family(src, srcname):
+        nonlocal ncalls
+        src_cls = type(src)
+        wrapC = src_cls.wrap_func(np.asarray(C).copy())
+        items = [("copy", lambda: src_cls(src), lambda: Ts),
+                 ("conjugate", lambda: src.conjugate(wrapC), lambda: Ci @ Ts @ C),
+                 ("dual", lambda: src.dual(), lambda: Tis.swapaxes(-1, -2)),
+                 ("astype-complex", lambda: src.astype("complex128"), lambda: Ts.astype("complex128")),
+                 ("compose:identity", lambda: src.compose(lambda M: M), lambda: Ts),
+                 ("compose:block_include", lambda: src.compose(hom.block_include(n + 2)), lambda: R.block_include(Ts, n + 2)),
+                 ("gln_adjoint", lambda: src.gln_adjoint(), lambda: R.gl_adjoint_stack(Ts, Tis)),
+                 ("tensor_product", lambda: src.tensor_product(src), lambda: R.kron_stack(Ts, Ts)),
+                 ("symmetric_square", lambda: src.symmetric_square(), lambda: _sym_expected(Ts))]
+        if allreal:
+            items.append(("astype-float", lambda: src.astype("float64"), lambda: Ts.astype("float64")))
+        if n >= 2:
+            items.append(("sln_adjoint", lambda: src.sln_adjoint(), lambda: R.sl_adjoint_stack(Ts, Tis)))
+        subs = []
+        if simple:
+            sw_s = ["".join(w) for w in subwords]
+            subs = [("subgroup(list)", lambda: src.subgroup(list(sw_s)), list("abc")[:len(subwords)]),
+                    ("subgroup(list,compute_inverse=False)", lambda: src.subgroup(list(sw_s), compute_inverse=False), list("abc")[:len(subwords)]),
+                    ("subgroup(dict)", lambda: src.subgroup(dict(zip(list("xyz"), sw_s))), list("xyz")[:len(subwords)]),
+                    ("subgroup(generator_names)", lambda: src.subgroup(list(sw_s), generator_names=list("pqr")[:len(subwords)]), list("pqr")[:len(subwords)])]
+        else:
+            subs = [("subgroup(list-of-lists)", lambda: src.subgroup([list(w) for w in subwords]), list("abc")[:len(subwords)])]
+
+        def judge(name, d, ws, join, expected):
+            nonlocal ncalls
+            rcls, vcls, strict = contract_classes(CLASS_CONTRACT[name], src_cls)
+            k = "derived-class/%s/%s" % (srcname, name)
+            if (type(d) is not rcls) if strict else (not isinstance(d, rcls)):
+                v.append({"key": k + "/representation", "msg": "%s of a %s is a %s, the library's class contract says %s" % (
+                    name, srcname, type(d).__name__, rcls.__name__)})
+            raw = guard(v, "%s/%s:evaluate" % (srcname, name), lambda: [d[join(w)] for w in ws])
+            if raw is None:
+                return
+            ncalls += len(ws)
+            badt = [wstr(w) for w, x in zip(ws, raw) if ((type(x) is not vcls) if strict else (not isinstance(x, vcls)))]
+            if badt:
+                v.append({"key": k + "/value-type", "msg": "%s of a %s: [w] is a %s for w = %r ..., the source's [w] is a %s and the contract says %s" % (
+                    name, srcname, type(raw[[wstr(w) for w in ws].index(badt[0])]).__name__, badt[0], type(src[join(ws[0])]).__name__, vcls.__name__)})
+                if not all(isinstance(x, np.ndarray) or hasattr(x, "matrix") for x in raw):
+                    return
+            el = guard(v, "%s/%s:elements" % (srcname, name), lambda: d.elements([join(w) for w in ws]))
+            if el is not None and ((type(el) is not vcls) if strict else (not isinstance(el, vcls))):
+                v.append({"key": k + "/elements-type", "msg": "%s of a %s: elements(words) is a %s, contract %s" % (name, srcname, type(el).__name__, vcls.__name__)})
+            exp = expected()
+            # a wrongly typed value is reported above; its matrix is still compared in the convention its type states
+            compare(v, "derived/%s/%s" % (srcname, name), ws, stack([as_matrix(x) for x in raw], exp.shape[-1]), exp, None,
+                    "%s of a %s: [w] vs functor(rho(w))" % (name, srcname))
+
+        jw = (lambda w: "".join(w)) if simple else (lambda w: list(w))
+        for name, make, expected in items:
+            d = guard(v, "%s/%s" % (srcname, name), make)
+            if d is not None:
+                judge(name, d, short, jw, expected)
+        for name, make, names in subs:
+            s = guard(v, "%s/%s" % (srcname, name), make)
+            if s is None:
+                continue
+            sletters = []
+            for x in names:
+                sletters += [x, R.inv_name(x)]
+            if sorted(s.generators.keys()) != sorted(sletters):
+                v.append({"key": "derived/%s/%s/names" % (srcname, name), "msg": "subgroup generators %r, expected %r" % (list(s.generators), sletters)})
+                continue
+            ws = list(R.all_words(sletters, 2))
+            tabw = dict(zip(names, subwords))
+            judge(name, s, ws, lambda w: "".join(w), lambda: np.stack([model.value(R.substitute(w, tabw)) for w in ws]))
+
+    if pr is not None and not v:
+        wrapped_family(pr, "ProjectiveRepresentation")
+    if cfg["alpha"] == "lorentz" and hr is not None and not v:
+        wrapped_family(hr, "HyperbolicRepresentation")
 
     # ---- Fox calculus (one-character names: fox_word_derivative works on strings)
     if simple and cfg.get("fox", True):
@@ -972,6 +1093,12 @@ def run(ctx):
     ctx.assume("compose(sl2_irrep), compose(sl2_to_so21) only in states without an integer-dtype generator matrix "
                "(lie.sl2_irrep accumulates in the input dtype)")
     ctx.assume("astype(float64) only for real representations; HyperbolicRepresentation only on the O(n,1) alphabet")
+    ctx.assume("class contract of representations derived from a ProjectiveRepresentation / HyperbolicRepresentation (values Transformation / Isometry), as "
+               "the unchanged library builds them: %r, where 'same' = class and value type of the source (built through self.__class__: copy, "
+               "conjugate, dual, astype, subgroup), 'projective' = ProjectiveRepresentation with Transformation values (compose, gln_adjoint; "
+               "HyperbolicRepresentation overrides both), 'wrapped' = some ProjectiveRepresentation with Transformation values (sln_adjoint), "
+               "'plain' = Representation with ndarray values (tensor_product, symmetric_square construct Representation()); evaluated on all words "
+               "of length <= 2, values compared with the same functors as for the plain representation" % (CLASS_CONTRACT,))
     ctx.assume("overlapping names (generators a, b and a generator named 'ab' / 'aa'): a plain string word is read letter by letter "
                "(Representation.parse_word with parse_simple, the default of [] / element / elements), so it is in the domain only when "
                "every one of its characters is an assigned one-character generator; the multi-character generator is addressed by a "
